@@ -21,6 +21,7 @@ RULE = ("the interleaved event log (consumer step, pull(src,pos), end(src), call
         "least one pull and (a source ended, or an early exit, or a callable was invoked); distinct = spec+flavours")
 RULE += (' Also: ONE iterator passed as several arguments; sized containers (list, tuple) among one-shot iterators; groupby with a key that fails once while the consumer carries on; a plain list changed (append/pop/replace/insert/clear) while the tool is part-way through it; group handles closed.')
 RULE += (' Also: key / reduction calls of min, max, reduce (full interleaving with pulls) and sorted, nlargest, nsmallest (call sequence).')
+RULE += (' Also: cycle over a list that is changed after the first pass.')
 ASSUMPTIONS = ["stdlib 3.12 is the reference; events compared are exactly pulls, end checks, calls, yields",
                "generator-flavoured sources are compared with generator twins (a pull after exhaustion is invisible there)",
                "accumulate([]) without initial: only the pull/end events before the documented TypeError are compared"]
